@@ -3,7 +3,7 @@ import numpy as np
 from ai_edge_litert import interpreter as tfl
 from vf.gen import models, recipes, data as gdata
 from vf.oracle import skeleton, resolve, decode, interp, refmodel
-from vf.props import common, c03
+from vf.props import c01, common, c03
 
 LEVEL = 'translation_validation'
 RULE = ('generated float models x accepted recipes made only of weight-only / float16 / dynamic-range / no_quantize rules (4/8 bit, '
@@ -187,12 +187,11 @@ def validate(ctx, spec, src, run, acc, datasets, extra=None):
               ctx.observe_max('float_op_rel_err', err)
               if not (err <= 1e-5):
                 ctx.violation('float_compute_operator_differs_from_replay', f, dict(base, op_index=k, rel_err=err))
-  ctx.risky('interp.c06', go, {'rules': acc})
+  ctx.risky('interp.c06', go, common.risky_info(run, spec, datasets, {'rules': acc}))
   return {}
 
 
-def crash_to_violation(open_call, crash):
-  return None
+crash_to_violation = c01.crash_to_violation
 
 
 def summarize(agg):
